@@ -208,169 +208,7 @@ func runC10(c *Ctx) {
 	}
 	c.Min("C10.P1", 4)
 
-	// ---- X2 skeletons
-	type site struct{ kind, loopOver, setFrom, polarity string }
-	skeleton := func(h *ssa.Function) []string {
-		var out []string
-		classify := func(v ssa.Value) string {
-			sl := backSlice(v)
-			d, e := sliceHas(sl, isParam(h, 0)), sliceHas(sl, isParam(h, 1))
-			switch {
-			case d && e:
-				return "doc+entry"
-			case d:
-				return "doc"
-			case e:
-				return "entry"
-			}
-			return "fresh"
-		}
-		for _, l := range naturalLoops(h) {
-			// iterated collection: the slice indexed by the induction variable in the header's body
-			loopOver := "?"
-			for b := range l.blocks {
-				for _, in := range b.Instrs {
-					if ia, ok := in.(*ssa.IndexAddr); ok && c.Path(ia.Index, nil) == "ι" {
-						loopOver = classify(ia.X)
-					}
-				}
-			}
-			for b := range l.blocks {
-				for _, in := range b.Instrs {
-					cl, ok := in.(*ssa.Call)
-					if !ok {
-						continue
-					}
-					kind := ""
-					if bi, isB := cl.Call.Value.(*ssa.Builtin); isB && bi.Name() == "append" {
-						kind = "append(" + classify(cl.Call.Args[1]) + "-element)"
-					} else if g := cl.Call.StaticCallee(); g != nil && inModule(g) && g.Signature.Results().Len() == 0 && len(cl.Call.Args) == 2 {
-						kind = "update-in-place(" + classify(cl.Call.Args[1]) + "-element)"
-					} else {
-						continue
-					}
-					// controlling membership test: dominating If on the ok of a Lookup
-					pol, from := "unconditional", "-"
-					for x := b; x != nil; x = x.Idom() {
-						id := x.Idom()
-						if id == nil || len(x.Preds) != 1 {
-							continue
-						}
-						iff, isIf := id.Instrs[len(id.Instrs)-1].(*ssa.If)
-						if !isIf || !l.blocks[id] {
-							continue
-						}
-						cond := iff.Cond
-						neg := false
-						if u, isU := cond.(*ssa.UnOp); isU && u.Op == token.NOT {
-							cond, neg = u.X, true
-						}
-						ex, isEx := cond.(*ssa.Extract)
-						if !isEx {
-							continue
-						}
-						lk, isLk := ex.Tuple.(*ssa.Lookup)
-						if !isLk {
-							continue
-						}
-						taken := id.Succs[0] == x
-						isOK := taken != neg
-						if isOK {
-							pol = "if-member"
-						} else {
-							pol = "if-not-member"
-						}
-						from = classify(lk.X)
-						break
-					}
-					out = append(out, fmt.Sprintf("loop over %s: %s %s of set built from %s", loopOver, kind, pol, from))
-				}
-			}
-		}
-		sort.Strings(out)
-		return out
-	}
-	wantSk := map[string][]string{
-		"remove-public-keys":   {"loop over doc: append(doc-element) if-not-member of set built from entry"},
-		"remove-services":      {"loop over doc: append(doc-element) if-not-member of set built from entry"},
-		"remove-also-known-as": {"loop over doc: append(doc-element) if-not-member of set built from entry"},
-		"add-public-keys":      {"loop over entry: append(entry-element) if-not-member of set built from doc", "loop over entry: update-in-place(entry-element) if-member of set built from doc"},
-		"add-services":         {"loop over entry: append(entry-element) if-not-member of set built from doc", "loop over entry: update-in-place(entry-element) if-member of set built from doc"},
-		"add-also-known-as":    {"loop over entry: append(entry-element) if-not-member of set built from doc"},
-	}
-	var as []string
-	for a := range wantSk {
-		as = append(as, a)
-	}
-	sort.Strings(as)
-	for _, a := range as {
-		h := handlers[a]
-		if h == nil {
-			continue
-		}
-		got := skeleton(h)
-		c.Check("C10.X2", a+":decision-skeleton", eqStrs(got, wantSk[a]), h.Pos(), fmt.Sprintf("%s: %v (documented: %v)", h.Name(), got, wantSk[a]))
-		// add-handlers start from the existing entries in order: append(nil, existing...)
-		if strings.HasPrefix(a, "add-") {
-			okInit := false
-			forEachInstr(h, func(in ssa.Instruction) {
-				if cl, ok := in.(*ssa.Call); ok {
-					if bi, isB := cl.Call.Value.(*ssa.Builtin); isB && bi.Name() == "append" && c.Path(cl.Call.Args[0], nil) == "nil" && cl.Block() == h.Blocks[0] {
-						sl := backSlice(cl.Call.Args[1])
-						if sliceHas(sl, isParam(h, 0)) && !sliceHas(sl, isParam(h, 1)) {
-							okInit = true
-						}
-					}
-				}
-			})
-			c.Check("C10.X2", a+":keeps-existing-order", okInit, h.Pos(), "the result list starts as a copy of the existing entries in their order")
-		}
-	}
-	// siblings agree pairwise (deviance check independent of the documented table)
-	for _, grp := range [][]string{{"remove-public-keys", "remove-services", "remove-also-known-as"}, {"add-public-keys", "add-services"}} {
-		ok := true
-		var first []string
-		for i, a := range grp {
-			if handlers[a] == nil {
-				ok = false
-				continue
-			}
-			sk := skeleton(handlers[a])
-			if i == 0 {
-				first = sk
-			} else if !eqStrs(sk, first) {
-				ok = false
-			}
-		}
-		c.Check("C10.X2", "siblings-agree:"+strings.Join(grp, ","), ok, 0, "sibling handlers share one decision skeleton")
-	}
-	// in-place update helpers replace the element with equal id
-	for _, uf := range []string{"updateKey", "updateService"} {
-		f := c.Fn(pComposer, uf)
-		if f == nil {
-			c.Unresolved("C10.X2", "doccomposer."+uf)
-			continue
-		}
-		ok := false
-		forEachInstr(f, func(in ssa.Instruction) {
-			if st, isS := in.(*ssa.Store); isS && c.Path(st.Addr, nil) == "$0[ι]" && c.Path(st.Val, nil) == "$1" {
-				// guarded by ID equality
-				for x := st.Block(); x != nil; x = x.Idom() {
-					id := x.Idom()
-					if id == nil {
-						break
-					}
-					if iff, isIf := id.Instrs[len(id.Instrs)-1].(*ssa.If); isIf && id.Succs[0] == x {
-						cp := c.Path(iff.Cond, nil)
-						if strings.Contains(cp, ").ID($0[ι]) == ") && strings.Contains(cp, ").ID($1)") {
-							ok = true
-						}
-					}
-				}
-			}
-		})
-		c.Check("C10.X2", uf+":replace-by-id", ok, f.Pos(), uf+" overwrites exactly the slots whose id equals the new element's id")
-	}
+	c.composerSkeletons("C10.X2", handlers)
 	c.Min("C10.X2", 12)
 	c.Assume("the documented per-action skeletons are encoded in c10c14.go from the property statement; element-level semantics of the RFC 6902 library are outside the claim")
 }
@@ -521,6 +359,11 @@ func runC14(c *Ctx) {
 		c.Unresolved("C14.P1", "(patch.Patch).Bytes")
 	}
 	c.Min("C14.P1", 1)
+
+	// ---- X2 the patches produced from a document are applied by the add-handlers: their decision skeletons
+	// (insert-or-replace by id within the handler's own list) are part of this check
+	c.composerSkeletons("C14.X2", c.composerHandlers())
+	c.Min("C14.X2", 12)
 	c.Assume("round-trip equalities are value-level and not decided")
 }
 
@@ -560,4 +403,190 @@ func ascendingFromZero(v ssa.Value) bool {
 		}
 	}
 	return false
+}
+
+// composerHandlers: action -> handler function, from the composer's dispatch.
+func (c *Ctx) composerHandlers() map[string]*ssa.Function {
+	out := map[string]*ssa.Function{}
+	apf := c.Fn(pComposer, "applyPatch")
+	if apf == nil {
+		return out
+	}
+	for k, blk := range c.caseTable(apf, nil, func(p string) bool { return strings.Contains(p, ").GetAction(") }) {
+		for _, cl := range callsIn(blk) {
+			if g := cl.Call.StaticCallee(); g != nil && inModule(g) {
+				out[unquote(k)] = g
+				break
+			}
+		}
+	}
+	return out
+}
+
+// composerSkeletons: decision skeletons of the list handlers (shared by C10 and by C14, whose
+// document -> patches -> document claim rests on the add-handlers).
+func (c *Ctx) composerSkeletons(rule string, handlers map[string]*ssa.Function) {
+	// ---- X2 skeletons
+	type site struct{ kind, loopOver, setFrom, polarity string }
+	skeleton := func(h *ssa.Function) []string {
+		var out []string
+		classify := func(v ssa.Value) string {
+			sl := backSlice(v)
+			d, e := sliceHas(sl, isParam(h, 0)), sliceHas(sl, isParam(h, 1))
+			switch {
+			case d && e:
+				return "doc+entry"
+			case d:
+				return "doc"
+			case e:
+				return "entry"
+			}
+			return "fresh"
+		}
+		for _, l := range naturalLoops(h) {
+			// iterated collection: the slice indexed by the induction variable in the header's body
+			loopOver := "?"
+			for b := range l.blocks {
+				for _, in := range b.Instrs {
+					if ia, ok := in.(*ssa.IndexAddr); ok && c.Path(ia.Index, nil) == "ι" {
+						loopOver = classify(ia.X)
+					}
+				}
+			}
+			for b := range l.blocks {
+				for _, in := range b.Instrs {
+					cl, ok := in.(*ssa.Call)
+					if !ok {
+						continue
+					}
+					kind := ""
+					if bi, isB := cl.Call.Value.(*ssa.Builtin); isB && bi.Name() == "append" {
+						kind = "append(" + classify(cl.Call.Args[1]) + "-element)"
+					} else if g := cl.Call.StaticCallee(); g != nil && inModule(g) && g.Signature.Results().Len() == 0 && len(cl.Call.Args) == 2 {
+						kind = "update-in-place(" + classify(cl.Call.Args[1]) + "-element)"
+					} else {
+						continue
+					}
+					// controlling membership test: dominating If on the ok of a Lookup
+					pol, from := "unconditional", "-"
+					for x := b; x != nil; x = x.Idom() {
+						id := x.Idom()
+						if id == nil || len(x.Preds) != 1 {
+							continue
+						}
+						iff, isIf := id.Instrs[len(id.Instrs)-1].(*ssa.If)
+						if !isIf || !l.blocks[id] {
+							continue
+						}
+						cond := iff.Cond
+						neg := false
+						if u, isU := cond.(*ssa.UnOp); isU && u.Op == token.NOT {
+							cond, neg = u.X, true
+						}
+						ex, isEx := cond.(*ssa.Extract)
+						if !isEx {
+							continue
+						}
+						lk, isLk := ex.Tuple.(*ssa.Lookup)
+						if !isLk {
+							continue
+						}
+						taken := id.Succs[0] == x
+						isOK := taken != neg
+						if isOK {
+							pol = "if-member"
+						} else {
+							pol = "if-not-member"
+						}
+						from = classify(lk.X)
+						break
+					}
+					out = append(out, fmt.Sprintf("loop over %s: %s %s of set built from %s", loopOver, kind, pol, from))
+				}
+			}
+		}
+		sort.Strings(out)
+		return out
+	}
+	wantSk := map[string][]string{
+		"remove-public-keys":   {"loop over doc: append(doc-element) if-not-member of set built from entry"},
+		"remove-services":      {"loop over doc: append(doc-element) if-not-member of set built from entry"},
+		"remove-also-known-as": {"loop over doc: append(doc-element) if-not-member of set built from entry"},
+		"add-public-keys":      {"loop over entry: append(entry-element) if-not-member of set built from doc", "loop over entry: update-in-place(entry-element) if-member of set built from doc"},
+		"add-services":         {"loop over entry: append(entry-element) if-not-member of set built from doc", "loop over entry: update-in-place(entry-element) if-member of set built from doc"},
+		"add-also-known-as":    {"loop over entry: append(entry-element) if-not-member of set built from doc"},
+	}
+	var as []string
+	for a := range wantSk {
+		as = append(as, a)
+	}
+	sort.Strings(as)
+	for _, a := range as {
+		h := handlers[a]
+		if h == nil {
+			continue
+		}
+		got := skeleton(h)
+		c.Check(rule, a+":decision-skeleton", eqStrs(got, wantSk[a]), h.Pos(), fmt.Sprintf("%s: %v (documented: %v)", h.Name(), got, wantSk[a]))
+		// add-handlers start from the existing entries in order: append(nil, existing...)
+		if strings.HasPrefix(a, "add-") {
+			okInit := false
+			forEachInstr(h, func(in ssa.Instruction) {
+				if cl, ok := in.(*ssa.Call); ok {
+					if bi, isB := cl.Call.Value.(*ssa.Builtin); isB && bi.Name() == "append" && c.Path(cl.Call.Args[0], nil) == "nil" && cl.Block() == h.Blocks[0] {
+						sl := backSlice(cl.Call.Args[1])
+						if sliceHas(sl, isParam(h, 0)) && !sliceHas(sl, isParam(h, 1)) {
+							okInit = true
+						}
+					}
+				}
+			})
+			c.Check(rule, a+":keeps-existing-order", okInit, h.Pos(), "the result list starts as a copy of the existing entries in their order")
+		}
+	}
+	// siblings agree pairwise (deviance check independent of the documented table)
+	for _, grp := range [][]string{{"remove-public-keys", "remove-services", "remove-also-known-as"}, {"add-public-keys", "add-services"}} {
+		ok := true
+		var first []string
+		for i, a := range grp {
+			if handlers[a] == nil {
+				ok = false
+				continue
+			}
+			sk := skeleton(handlers[a])
+			if i == 0 {
+				first = sk
+			} else if !eqStrs(sk, first) {
+				ok = false
+			}
+		}
+		c.Check(rule, "siblings-agree:"+strings.Join(grp, ","), ok, 0, "sibling handlers share one decision skeleton")
+	}
+	// in-place update helpers replace the element with equal id
+	for _, uf := range []string{"updateKey", "updateService"} {
+		f := c.Fn(pComposer, uf)
+		if f == nil {
+			c.Unresolved(rule, "doccomposer."+uf)
+			continue
+		}
+		ok := false
+		forEachInstr(f, func(in ssa.Instruction) {
+			if st, isS := in.(*ssa.Store); isS && c.Path(st.Addr, nil) == "$0[ι]" && c.Path(st.Val, nil) == "$1" {
+				// guarded by ID equality
+				for x := st.Block(); x != nil; x = x.Idom() {
+					id := x.Idom()
+					if id == nil {
+						break
+					}
+					if iff, isIf := id.Instrs[len(id.Instrs)-1].(*ssa.If); isIf && id.Succs[0] == x {
+						cp := c.Path(iff.Cond, nil)
+						if strings.Contains(cp, ").ID($0[ι]) == ") && strings.Contains(cp, ").ID($1)") {
+							ok = true
+						}
+					}
+				}
+			}
+		})
+		c.Check(rule, uf+":replace-by-id", ok, f.Pos(), uf+" overwrites exactly the slots whose id equals the new element's id")
+	}
 }
